@@ -209,7 +209,7 @@ func checkC13(r *Run) error {
 			"meaning": "for each swept world every recorded I/O call index x every applicable fault kind was executed once"},
 		"torn_prefix_sweeps": st.tornSweeps,
 		"operand_matrix": map[string]any{"programs": st.matrixInputs, "exhaustive_over": "every expression slot of every statement form, builtin, return position (also nested in if/for/switch inside functions) x 35 operand kinds (void/single/multi-value calls, app calls, slices, nil, literals, undefined names, parenthesised variants) x placement at top level / inside a function, both targets"},
-		"tiny_input_enumeration": map[string]any{"inputs": st.tinyInputs, "exhaustive_over": "every single byte, every vocabulary token, every ordered pair of vocabulary tokens with and without a separating blank, every encoding mark x 12 short tails (thorough: plus all triples over a 30-token vocabulary) as the whole main file"},
+		"tiny_input_enumeration": map[string]any{"inputs": st.tinyInputs, "exhaustive_over": "every single byte, every vocabulary token, every ordered pair of vocabulary tokens with and without a separating blank, every encoding mark x 12 short tails, every line opener (shebang, comment and string openers) x 7 endings (thorough: plus all triples over a 30-token vocabulary) as the whole main file"},
 	}
 	extra := map[string]any{
 		"rounds":            rounds,
@@ -276,6 +276,11 @@ func c13Tiny(r *Run, st *c13Stats) error {
 	for _, mark := range []string{"\xef\xbb\xbf", "\xff\xfe", "\xfe\xff", "\xff\xfe\x00\x00", "\x00\x00\xfe\xff"} {
 		for _, tl := range []string{"", "x", "xy", "x\x00", "x\x00y", "x\x00y\x00", "\n", "print(1)\n", u16("print(1)\n", true), u16("print(1)\n", true) + "\n", u16("print(1)\n", false), u16("print(1)\n", false)[1:]} {
 			inputs = append(inputs, mark+tl)
+		}
+	}
+	for _, first := range []string{"#!", "#!/usr/bin/env tsh", "#", "#!/bin/sh -e", "//", "/*", "/*/", "\"", "`"} {
+		for _, tl := range []string{"", "\n", "\r", "\r\n", "\nprint(1)\n", " print(1)", "\x00"} {
+			inputs = append(inputs, first+tl)
 		}
 	}
 	nTiny := len(inputs)
